@@ -1571,6 +1571,11 @@ var shapeTargets = []shapeTarget{
 	{"internal/transfer", "RecvManifestMultiStream", "", "assign:registered", "filewait_ready_pred"},
 	{"internal/transfer", "RecvManifestMultiStream", "", "args:fileReady.signal", "filewait_signal_args"},
 	{"internal/transfer", "RecvManifestMultiStream", "", "seq:stateByKey[key] = state|fileReady.signal(key)|state := stateByKey[fileKey]|verifhook.Point(\"recv.reader.before_wait\", fileKey)", "filewait_order"},
+	// chunk buffers and abandoned reads (Model/BufPool): what readAtWithPool does when its context ends after the job was queued
+	{"internal/transfer", "readAtWithPool", "", "select-cases", "readpool_selects"},
+	{"internal/transfer", "readAtWithPool", "", "seq:resultCh := make(chan readResult, 1)", "readpool_result_chan"},
+	{"internal/transfer", "SendManifestMultiStream", "", "args:readAtWithPool", "send_read_args"},
+	{"internal/transfer", "SendManifestMultiStream", "", "args:bufPool.Put", "send_buf_puts"},
 	// the mailbox registries (Model/FileWait, namespace Mailbox): look-up-or-register / hand-over-or-leave in one critical section
 	{"internal/transfer", "wait", "fileDoneRegistry", "body-head:5", "mailbox_done_wait"},
 	{"internal/transfer", "deliver", "fileDoneRegistry", "body-stmts", "mailbox_done_deliver"},
@@ -1725,6 +1730,35 @@ func (w *world) shapesIn(body *ast.BlockStmt, sel string) []string {
 			printer.Fprint(&buf, w.fset, st)
 			res = append(res, strings.Join(strings.Fields(buf.String()), " "))
 		}
+		return res
+	}
+	if sel == "select-cases" {
+		// every case of every select statement that is not nested in another select: "communication => body", one line each
+		var walk func(n ast.Node) bool
+		walk = func(n ast.Node) bool {
+			ss, ok := n.(*ast.SelectStmt)
+			if !ok {
+				return true
+			}
+			for _, st := range ss.Body.List {
+				cc := st.(*ast.CommClause)
+				comm := "default"
+				if cc.Comm != nil {
+					var buf bytes.Buffer
+					printer.Fprint(&buf, w.fset, cc.Comm)
+					comm = strings.Join(strings.Fields(buf.String()), " ")
+				}
+				var parts []string
+				for _, b := range cc.Body {
+					var buf bytes.Buffer
+					printer.Fprint(&buf, w.fset, b)
+					parts = append(parts, strings.Join(strings.Fields(buf.String()), " "))
+				}
+				res = append(res, comm+" => "+strings.Join(parts, "; "))
+			}
+			return false
+		}
+		ast.Inspect(body, walk)
 		return res
 	}
 	if sel == "go-bodies" {
